@@ -570,7 +570,7 @@ func (sc *scenario) syncOnce(i int, seed uint64) vs.M {
 	outcome, detail := w.runSync(sc.key)
 	cacheAfter := w.cacheDump()
 	return vs.M{"kind": "sync", "ctl": "decorator", "case": i, "seed": seed, "cfg": sc.Cfg, "key": sc.key,
-		"cache": cacheBefore, "storeBefore": storeBefore, "calls": w.sim.LogCopy(), "storeAfter": w.sim.Snapshot(),
+		"cache": cacheBefore, "storeBefore": storeBefore, "calls": w.sim.LogCopy(), "storeAfter": w.sim.Snapshot(), "defs": w.sim.Defs(),
 		"result":      vs.M{"outcome": outcome, "detail": detail, "queue": w.q.Ops},
 		"cacheIntact": vs.MustJSON(cacheBefore) == vs.MustJSON(cacheAfter)}
 }
